@@ -67,7 +67,8 @@ CLAIMED = {
          "Rocq algebraic + round-trip proofs by induction over the field list; differential correspondence"),
  "C11": ("Theorems c11_crc_exact (the C loop with constants re-read from the source computes the IEEE 802.3 32-stage division "
          "register, for every message and every in-bounds read oracle), c11_tbl_equiv (an independent table-driven CRC derived from G), "
-         "c11_fcs_bytes, c11_verify_iff, c11_short_no. Compared with the library and with zlib on exhaustive short strings, the "
+         "c11_fcs_bytes, c11_verify_iff, c11_short_no, c11_burst_detected / c11_single_bit_detected (xoring ANY error pattern confined to <= 32 "
+         "transmitted bits - a single bit included - into ANY valid frame of any length makes verification answer no). Compared with the library and with zlib on exhaustive short strings, the "
          "single-bit basis, random strings up to 64 KiB, valid frames and all their single-bit flips.",
          "Rocq refinement proof against a bit-serial register spec; differential correspondence"),
  "C12": ("Theorems c12_recognise_iff, c12_message (all 65536 key-information values), c12_extract_exact, c12_key_data_length, "
@@ -86,11 +87,11 @@ CLAIMED = {
          "malloc/realloc/free calls (sizes and branches from the functional models), for EVERY edit history, EVERY byte string through "
          "classify + all parsers, and EVERY allocation-failure schedule, no step double-frees, uses a released or NULL block, and after the "
          "release routines no block is live. The skeleton's allocation trace (sizes, order, which block) is compared event by event with "
-         "the --wrap ledger of the library; F33 (no release routine for parsed deauth/disassoc) is an open finding. PARTIAL: the allocator "
+         "the --wrap ledger of the library. PARTIAL: the allocator "
          "and ASan's detection are trusted.",
          "Rocq invariant-by-induction over allocation skeletons; trace-level differential correspondence"),
  "C15": ("Theorems c15_add_reported (a tag is reported stored iff stored; a failed add changes nothing and is -ENOMEM), c15_remove_safe, "
-         "c15_set_partial (F37: a failed setter may have removed the old element - open finding), c15_detail_reported, "
+         "c15_set_atomic (a failed setter leaves the stored list exactly as it was), c15_detail_reported, "
          "c15_copy_parser_reported, plus C14's theorems for every schedule. Every allocation index of every scenario is failed in turn "
          "(single failure and fail-from-k) and returns, crash class, stored bytes and ledger are compared with the skeleton.",
          "Rocq proofs over failure schedules; exhaustive fault injection by link-time wrapping"),
@@ -109,7 +110,8 @@ CLAIMED = {
  "C18": ("Theorem c18_shapes: for all 15 published names, 8 argument-expression shapes and ALL 16-bit operand values, the macro - expanded "
          "token by token as the preprocessor does from the macro bodies as compiled, parsed with C precedence - is non-zero exactly when the "
          "IEEE-assigned bit is set in the value the argument denotes; c18_values / c18_distinct: enumerators equal the IEEE bit numbers and "
-         "are pairwise distinct. The Coq expander/parser is validated against the real compiler on the same shapes and values.",
+         "are pairwise distinct; c18_any_expression: the same for EVERY argument token list that is a C expression of the modelled grammar "
+         "(however it is written), in every environment. The Coq expander/parser is validated against the real compiler on the shapes.",
          "Rocq proof over a token-level macro expander + C expression parser; translator-regenerated macro bodies"),
  "C19": ("Theorems c19_values / c19_distinct (every published enumerator of ten enumerations, as compiled and re-read on every run, equals the "
          "independently transcribed IEEE value; no two names of one kind share a number) and c19_lookup (for every integer the lookup is the "
